@@ -45,6 +45,8 @@ type c12Case struct {
 	Procs    int      `json:"gomaxprocs"`
 	Junk     []int    `json:"junk_ids"`
 	TCP      bool     `json:"tcp"`
+	// ReadTimeout is Info.PacketReadTimeout in seconds (0 is what an Info built by hand carries)
+	ReadTimeout int `json:"packet_read_timeout_s"`
 }
 
 // server is the peer's view: it parses what the client wrote and feeds responses.
@@ -243,7 +245,7 @@ func runCase(c c12Case) (f *vh.Failure) {
 			fn()
 		}
 	}()
-	info := &tds.Info{Info: dsn.Info{Host: "127.0.0.1"}, Network: "tcp", ChannelPackageQueueSize: 1000, PacketReadTimeout: 5}
+	info := &tds.Info{Info: dsn.Info{Host: "127.0.0.1"}, Network: "tcp", ChannelPackageQueueSize: 1000, PacketReadTimeout: c.ReadTimeout}
 	if c.TCP {
 		var ln net.Listener
 		var port string
@@ -604,7 +606,14 @@ func genCase(rt *rapid.T, tcp bool) c12Case {
 			v := int32(i*1000 + r)
 			ps = append([]rc.P{{RetStat: &v}}, ps...)
 			stream, _, _, _ := rc.EncodeStream(ps)
-			rs = append(rs, resp{Pkgs: ps, Cuts: respgen.Cuts(rt, len(stream), false)})
+			// header-only packets inside the response are allowed; none at its end: the consumer
+			// closes its channel once it has seen the final DONE, and an empty EOM packet arriving
+			// after that would be a packet for a channel that no longer exists
+			cuts := respgen.Cuts(rt, len(stream), true)
+			for len(cuts) > 0 && cuts[len(cuts)-1] >= len(stream) {
+				cuts = cuts[:len(cuts)-1]
+			}
+			rs = append(rs, resp{Pkgs: ps, Cuts: cuts})
 		}
 		c.Resp = append(c.Resp, rs)
 		c.ReqPad = append(c.ReqPad, rapid.SampledFrom([]int{0, 10, 470, 480, 490, 1200}).Draw(rt, "reqpad"))
@@ -613,6 +622,7 @@ func genCase(rt *rapid.T, tcp bool) c12Case {
 	for i := 0; i < n; i++ {
 		c.Order = append(c.Order, rapid.IntRange(0, 15).Draw(rt, "pick"))
 	}
+	c.ReadTimeout = rapid.SampledFrom([]int{0, 0, 5, 50}).Draw(rt, "readtimeout")
 	nj := rapid.IntRange(0, 3).Draw(rt, "njunk")
 	for i := 0; i < nj; i++ {
 		c.Junk = append(c.Junk, rapid.IntRange(c.Channels+1, 65535).Draw(rt, "junkid"))
